@@ -345,6 +345,17 @@ impl Property for LabProp {
         if self.id == "C08" && out.violations.is_empty() {
             c08_metamorphic(&j, input, &profile, &mut out);
         }
+        if self.id == "C10" && input.b.first().is_some_and(|x| x % 4 == 0) {
+            // "a panic ..., or an error, in a step": steps defined through the attribute macros that
+            // *return* Err (every spelling of the return type in the C19 zoo), run by the real runner
+            let mut tz = crate::tape::Tape::new(input.b.iter().rev().copied().collect());
+            let (v, sample) = crate::func::c19::check_macro_step_errors(&mut tz, "C10/macro-step-error");
+            out.violations.extend(v);
+            out.labels.push("macro_steps_returning_err");
+            if let Some(s) = out.sample.as_mut() {
+                s["macro_step_errors"] = sample;
+            }
+        }
         out
     }
 
